@@ -132,5 +132,17 @@ PROPS["C08"] = dict(
     assumptions=["item boundaries come from internal/ref/rtmpref and internal/ref/flvref", "the transport reports a failure on the call that fails and on every later call"],
 )
 
+PROPS["C14"] = dict(
+    pkg="c14", level="exploration",
+    rule="frame sequences built by an independent RFC 6455 frame builder and fed to a library endpoint (both roles, created through the real handshake); oracle = receiver model written from RFC 6455 section 5 "
+         "(delivered messages, error kind, pongs, close status); random long sequences, every cut offset of representative sessions, and a depth-first bounded-exhaustive odometer; per-check rules under coverage.checks",
+    quick=dict(timeout=900), thorough=dict(shards=16, timeout=3000),
+    technique="model-based property testing (rapid) against an RFC 6455 receiver model + bounded-exhaustive enumeration of frame alphabets + cut-offset enumeration",
+    level_text="Random exploration of long frame sequences with shrinking, plus complete enumeration of an abstract frame alphabet to depth 2 (quick) / 3 (thorough) and of all cut offsets of three sessions.",
+    level_note="Trusts the receiver model in internal/ref/wsref. Ambiguous inputs are not generated: 1-byte close payloads, close codes 1012-1014/1016-2999, UTF-8 validity of text payloads; non-minimal length "
+               "encodings are accepted by the model. When the stream is cut inside a frame the model accepts either no close frame or 1002/1009.",
+    assumptions=["receiver model follows RFC 6455 sections 5.2-5.5 and 7.4", "no extension negotiated in this check (RSV bits must be zero)"],
+)
+
 NOT_APPLICABLE = {}
 HOOK_COMMITS = []
